@@ -61,12 +61,19 @@ func (b *NonRevocationProofBuilder) UpdateCommit(witness *revocation.Witness) er
 	if b == nil || b.commit == nil || len(b.commitments) < 5 {
 		return errors.New("cannot update noninitialized NonRevocationProofBuilder")
 	}
-	if b.index >= witness.SignedAccumulator.Accumulator.Index {
+	if witness == nil || witness.SignedAccumulator == nil {
+		return errors.New("witness has no signed accumulator")
+	}
+	acc, err := witness.SignedAccumulator.UnmarshalVerify(b.pk)
+	if err != nil {
+		return err
+	}
+	if b.index >= acc.Index {
 		return nil
 	}
 	b.witness = witness
 	b.commit.Update(b.commitments, witness)
-	b.index = witness.SignedAccumulator.Accumulator.Index
+	b.index = acc.Index
 	return nil
 }
 
@@ -164,6 +171,9 @@ func (ic *Credential) CreateDisclosureProofBuilder(
 	if rangeStatements != nil {
 		d.rpStructures = make(map[int][]*rangeproof.ProofStructure)
 		for index, statements := range rangeStatements {
+			if index < 0 || index >= len(ic.Attributes) {
+				return nil, errors.New("Range statement on an attribute the credential does not have")
+			}
 			if !isUndisclosedAttribute(disclosedAttributes, index) {
 				return nil, errors.New("Range statements on revealed attributes are not supported")
 			}
@@ -258,13 +268,21 @@ func (ic *Credential) NonrevBuildProofBuilder() (*NonRevocationProofBuilder, err
 	if ic.NonRevocationWitness == nil {
 		return nil, errors.New("credential has no nonrevocation witness")
 	}
+	// A witness that was read from storage carries its signed accumulator undecoded.
+	if ic.NonRevocationWitness.SignedAccumulator == nil {
+		return nil, errors.New("nonrevocation witness has no signed accumulator")
+	}
+	acc, err := ic.NonRevocationWitness.SignedAccumulator.UnmarshalVerify(ic.Pk)
+	if err != nil {
+		return nil, err
+	}
 	b := &NonRevocationProofBuilder{
 		pk:         ic.Pk,
 		witness:    ic.NonRevocationWitness,
-		index:      ic.NonRevocationWitness.SignedAccumulator.Accumulator.Index,
+		index:      acc.Index,
 		randomizer: revocation.NewProofRandomizer(),
 	}
-	_, err := b.Commit()
+	_, err = b.Commit()
 	if err != nil {
 		return nil, err
 	}
